@@ -207,6 +207,16 @@ def readWeights : List Bytes → List Int → PRes (List Int)
     | .err m => .err m
     | .unmod w => .unmod w
 
+/-- the AGGREGATE option of utils.go:42-52: the word after it must be SUM, MIN or MAX; a command that ends with
+    AGGREGATE is refused with the same error (the index is checked before the word is read) -/
+def readAggregate (cmd : List Bytes) : PRes Bytes :=
+  match cmd.findIdx? fun t => eqFold t (b "aggregate") with
+  | none => .ok (b "sum")
+  | some i => match cmd[i + 1]? with
+    | none => .err (b "aggregate must be SUM, MIN, or MAX")
+    | some a => if toLower a == b "sum" || toLower a == b "min" || toLower a == b "max" then .ok (toLower a)
+                else .err (b "aggregate must be SUM, MIN, or MAX")
+
 /-- utils.go:24 extractKeysWeightsAggregateWithScores -/
 def extractKWA (cmd : List Bytes) : XRes KWA :=
   if !(cmd.all isAscii) then .unmod "non-ASCII token (EqualFold)" else
@@ -218,15 +228,9 @@ def extractKWA (cmd : List Bytes) : XRes KWA :=
   | .unmod w => .unmod w
   | .ok weights =>
     let ai := cmd.findIdx? fun t => eqFold t (b "aggregate")
-    match (match ai with
-           | none => XRes.ok (b "sum")
-           | some i => match cmd[i + 1]? with
-             | none => .panic "index out of range (AGGREGATE is the last token)"
-             | some a => if toLower a == b "sum" || toLower a == b "min" || toLower a == b "max" then .ok (toLower a)
-                         else .err (b "aggregate must be SUM, MIN, or MAX")) with
+    match readAggregate cmd with
     | .err m => .err m
     | .unmod w => .unmod w
-    | .panic w => .panic w
     | .ok aggregate =>
       let si := cmd.findIdx? fun t => eqFold t (b "withscores")
       let fmi := ([wi, ai, si].filterMap id).foldl (fun (acc : Option Nat) i => match acc with
@@ -487,9 +491,9 @@ def handleZRandMember (_c : Ctx) (cmd : List Bytes) : Prog Res :=
      | .ok cnt =>
        if cmd.length == 4 then
          if !isAscii (cmd.getD 3 []) then .unmod "non-ASCII token (EqualFold)"
-         else if eqFold (cmd.getD 3 []) (b "withscores") then PRes.ok ((if cnt != 0 then cnt else 1), true)
+         else if eqFold (cmd.getD 3 []) (b "withscores") then PRes.ok (cnt, true)
          else .err (b "last option must be WITHSCORES")
-       else .ok ((if cnt != 0 then cnt else 1), false))
+       else .ok (cnt, false))
     (.ok nilBulk) notZSet fun _ ms (a : Int × Bool) =>
       if a.1 == minInt64 then .unmod "AbsInt(MinInt64)"
       else if a.1.natAbs ≥ ms.length then .ret (zArrAnyOrder a.2 ms)
@@ -561,17 +565,15 @@ def handleZRemRangeByLex (_c : Ctx) (cmd : List Bytes) : Prog Res :=
     .call (.mutObj key (.zset 0 (ms.filter fun z => !inLex z.1 (cmd.getD 2 []) (cmd.getD 3 [])))) fun _ =>
       .ret (.ok (intReply (ms.filter fun z => inLex z.1 (cmd.getD 2 []) (cmd.getD 3 [])).length))
 
-/-- :627 handleZPOP (ZPOPMIN / ZPOPMAX) -/
+/-- :627 handleZPOP (ZPOPMIN / ZPOPMAX); the count goes to SortedSet.Pop as given: a negative one is refused
+    there, zero pops nothing (sorted_set.go:255-260) -/
 def handleZPop (c : Ctx) (cmd : List Bytes) : Prog Res :=
   withZSet cmd (cmd.length ≥ 2 && cmd.length ≤ 3)
-    (if cmd.length == 3 then
-       (match atoiErr (cmd.getD 2 []) with
-        | .ok n => PRes.ok (if n > 0 then n.toNat else 1)
-        | .err m => .err m
-        | .unmod w => .unmod w)
-     else .ok 1)
-    (.ok (b "*0\r\n")) (fun key => b "value at key " ++ key ++ b " is not a sorted set") fun key ms (count : Nat) =>
-      match zPop c ms count (eqFold (cmd.headD []) (b "zpopmax")) with
+    (if cmd.length == 3 then atoiErr (cmd.getD 2 []) else .ok 1)
+    (.ok (b "*0\r\n")) (fun key => b "value at key " ++ key ++ b " is not a sorted set") fun key ms (count : Int) =>
+      if count < 0 then .ret (.err (b "count must be a positive integer")) else
+      if count == 0 then .ret (.ok (b "*0\r\n")) else
+      match zPop c ms count.toNat (eqFold (cmd.headD []) (b "zpopmax")) with
       | .err m => .ret (.err m)
       | .unmod w => .unmod w
       | .ok (popped, rest) =>
